@@ -141,8 +141,31 @@ func runC07(c *mon.Ctx) {
 	}
 	c.SetAdd("registry_configurations", reg.name)
 	c.Count("config:" + reg.name)
-	c.Rule("one worker process per registry configuration (base profiles only; + P2-based extension; + P2- and P1-based extensions; + 8 further P2-based profiles sharing the JSON profile member and one P2-based profile named by an OID (JSON determinate, CBOR NO-VERDICT); + 4 P2-based and 4 P1-based further profiles). Tokens = valid and rule-breaking claims-sets of every registered profile, serialised to CBOR and to JSON by the harness, with the profile claim: a registered name / absent / an unregistered name / the name of a profile not registered in this configuration / another base profile's name / a non-text value / present under both profiles' keys / null; plus sets that are valid only under the *other* base profile's rules (P2 with EAN-13 reference, P1 with short or no boot seed). Oracle (determinate cases): the dynamic type and canonical profile of the result of DecodeClaimsFromCBOR/JSON must be those registered under the declared name, P1 when nothing is declared, an error for an unregistered value; the validating decoders accept iff the set is valid under the declared profile's rules and an accepted token's GetProfile() returns the declared name (P1's when none); CBOR and JSON must agree; NewClaims(p) returns the registered type, reports p, and fails for unregistered names. In CBOR the profile claim is key 265, so a token carrying BOTH 265 and P1's -75000 is judged by 265 (P2 name -> P2 implementation, unregistered -> error); in JSON a quarter of the profile strings are spelled with escape sequences (same value). A registered P1-derived profile named under key 265 of a P1-keyed token selects that implementation (valid iff the set is and -75000 is absent); a JSON null profile member on a profile-1 document declares nothing (profile 1 assumed). NO-VERDICT (counted; only 'never accepted under another profile' is asserted): null profile in CBOR / on a P2 document, P1 name under key 265, JSON documents carrying both members with one unregistered, both members present with one unknown, a P1-derived extension in CBOR (not selectable by design: its name lives under -75000). distinct_nontrivial = distinct (configuration, format, base, declaration class, validity class) signatures")
+	c.Rule("one worker process per registry configuration (base profiles only; + P2-based extension; + P2- and P1-based extensions; + 8 further P2-based profiles sharing the JSON profile member and one P2-based profile named by an OID (JSON determinate, CBOR NO-VERDICT); + 4 P2-based and 4 P1-based further profiles). Before the tokens, an impostor profile is offered under every taken name (must be refused; all later lookups see the original implementation). Tokens = valid and rule-breaking claims-sets of every registered profile, serialised to CBOR and to JSON by the harness, with the profile claim: a registered name / absent / an unregistered name / the name of a profile not registered in this configuration / another base profile's name / a non-text value / present under both profiles' keys / null; plus sets that are valid only under the *other* base profile's rules (P2 with EAN-13 reference, P1 with short or no boot seed). Oracle (determinate cases): the dynamic type and canonical profile of the result of DecodeClaimsFromCBOR/JSON must be those registered under the declared name, P1 when nothing is declared, an error for an unregistered value; the validating decoders accept iff the set is valid under the declared profile's rules and an accepted token's GetProfile() returns the declared name (P1's when none); CBOR and JSON must agree; NewClaims(p) returns the registered type, reports p, and fails for unregistered names. In CBOR the profile claim is key 265, so a token carrying BOTH 265 and P1's -75000 is judged by 265 (P2 name -> P2 implementation, unregistered -> error); in JSON a quarter of the profile strings are spelled with escape sequences (same value); in a quarter of the CBOR tokens the integer keys are in a longer-than-necessary form. A registered P1-derived profile named under key 265 of a P1-keyed token selects that implementation (valid iff the set is and -75000 is absent); a JSON null profile member on a profile-1 document declares nothing (profile 1 assumed). NO-VERDICT (counted; only 'never accepted under another profile' is asserted): null profile in CBOR / on a P2 document, P1 name under key 265, JSON documents carrying both members with one unregistered, both members present with one unknown, a P1-derived extension in CBOR (not selectable by design: its name lives under -75000). distinct_nontrivial = distinct (configuration, format, base, declaration class, validity class) signatures")
 	g := model.NewGen(c.Seed*4421 + int64(c.Shard))
+	// a name that is taken stays with its profile: registering an impostor under it
+	// (another implementation, the other base) must fail - the lookups below then
+	// see the original implementations
+	{
+		var taken []string
+		for name := range reg.types {
+			taken = append(taken, name)
+		}
+		sort.Strings(taken)
+		for _, name := range taken {
+			for _, base := range []int{1, 2, 3} {
+				if base != 1 && !strings.Contains(name, ":") && !strings.Contains(name, ".") {
+					continue // a P2-based claims type cannot carry a name that is neither URI nor OID
+				}
+				err := psatoken.RegisterProfile(extprof.NumberedProfile{Name: name, Base: base})
+				c.Eval()
+				c.Count("impostor-registrations-refused")
+				if err == nil {
+					c.Violation("C07/impostor-registered", fmt.Sprintf("RegisterProfile accepted a second profile (base %d) under the taken name %q", base, name), map[string]any{"config": reg.name})
+				}
+			}
+		}
+	}
 
 	// ---- NewClaims
 	for name, typ := range reg.types {
@@ -390,6 +413,19 @@ func runC07(c *mon.Ctx) {
 						w.Items[2*x], w.Items[2*y] = w.Items[2*y], w.Items[2*x]
 						w.Items[2*x+1], w.Items[2*y+1] = w.Items[2*y+1], w.Items[2*x+1]
 					}
+				}
+				if g.R.Intn(4) == 0 {
+					// the integer keys in a longer-than-necessary (still well-formed) form
+					for x := 0; x+1 < len(w.Items); x += 2 {
+						if g.R.Intn(2) == 0 {
+							wd := []int{2, 4, 8}[g.R.Intn(3)]
+							if wd < 8 && w.Items[x].U>>(8*uint(wd)) != 0 {
+								wd = 8 // the argument must still fit
+							}
+							w.Items[x] = w.Items[x].WithArgW(wd)
+						}
+					}
+					c.Count("cbor-keys-in-non-shortest-form")
 				}
 				input = refcbor.Encode(w)
 				if e.verdict == "type" && reg.base[e.name] == 1 && e.name != model.P1Name && a.Profile != nil {
